@@ -649,9 +649,9 @@ theorem materialise_store (h : Head) (a : Appender) (t : Int) : (materialise h a
   · simp only [c]
     by_cases c2 : h.initialized = true <;> simp [c2]
 
-theorem only_commit_stores_aux (s : State) (hc : s.cfg = true) (tk : List String) (hne : tk ≠ ["commit"])
-    (m : String) : ((stepT s tk).1.head.store.get m).all = (s.head.store.get m).all := by
-  unfold stepT
+theorem only_commit_stores_aux0 (s : State) (hc : s.cfg = true) (tk : List String) (hne : tk ≠ ["commit"])
+    (m : String) : ((stepT0 s tk).1.head.store.get m).all = (s.head.store.get m).all := by
+  unfold stepT0
   split
   · -- cfg
     simp only [hc]
@@ -677,5 +677,57 @@ theorem only_commit_stores_aux (s : State) (hc : s.cfg = true) (tk : List String
     · split <;> rfl
     · rfl
     · rfl
+
+/-- the same for the slot-addressed machine: only `commit`, `@1 commit`, `@2 commit` store -/
+theorem only_commit_stores_aux (s : State) (hc : s.cfg = true) (tk : List String)
+    (hne : tk ≠ ["commit"] ∧ tk ≠ ["@1", "commit"] ∧ tk ≠ ["@2", "commit"])
+    (m : String) : ((stepT s tk).1.head.store.get m).all = (s.head.store.get m).all := by
+  unfold stepT
+  split
+  · rename_i rest
+    by_cases c : slotOp rest = true
+    · simp only [c, if_true]
+      have hr : rest ≠ ["commit"] := fun e => hne.2.1 (by rw [e])
+      exact only_commit_stores_aux0 s.swap1 hc rest hr m
+    · simp [c]
+  · rename_i rest
+    by_cases c : slotOp rest = true
+    · simp only [c, if_true]
+      have hr : rest ≠ ["commit"] := fun e => hne.2.2 (by rw [e])
+      exact only_commit_stores_aux0 s.swap2 hc rest hr m
+    · simp [c]
+  · exact only_commit_stores_aux0 s hc tk hne.1 m
+
+/-! ### overlapping appenders: an op touches only the appender slot it addresses -/
+
+theorem stepT0_other_slots (s : State) (tk : List String) :
+    (stepT0 s tk).1.app1 = s.app1 ∧ (stepT0 s tk).1.app2 = s.app2 := by
+  unfold stepT0
+  repeat' split
+  all_goals exact ⟨rfl, rfl⟩
+
+theorem stepT0_cfg (s : State) (hc : s.cfg = true) (tk : List String) : (stepT0 s tk).1.cfg = true := by
+  unfold stepT0
+  repeat' split
+  all_goals first | exact hc | rfl
+
+theorem stepT_cfg (s : State) (hc : s.cfg = true) (tk : List String) : (stepT s tk).1.cfg = true := by
+  unfold stepT
+  split
+  · split
+    · exact stepT0_cfg s.swap1 hc _
+    · exact hc
+  · split
+    · exact stepT0_cfg s.swap2 hc _
+    · exact hc
+  · exact stepT0_cfg s hc tk
+
+/-- the run of a list of tokenised ops -/
+def runT (s : State) (ops : List (List String)) : State := ops.foldl (fun s tk => (stepT s tk).1) s
+
+theorem runT_cfg (s : State) (hc : s.cfg = true) (ops : List (List String)) : (runT s ops).cfg = true := by
+  induction ops generalizing s with
+  | nil => exact hc
+  | cons tk rest ih => exact ih _ (stepT_cfg s hc tk)
 
 end Prom.Admit
